@@ -150,6 +150,10 @@ class LocalQueueCandidates:
                 for ind in new_current_instances_inds:
                     self.add_new_tracks([current_instances[ind]])
 
+        else:
+            # No pair was matched (e.g. every score is NaN): all detections are unmatched.
+            self.add_new_tracks(current_instances)
+
         return current_instances
 
     def get_instances_groupby_frame_idx(
